@@ -34,6 +34,7 @@ def jobs(tier, seed):
     for ext in ("json", "pickle"):
         for prior in ("good", "good+bak"):
             out.append({"kind": "concurrent", "ext": ext, "prior": prior, "seed": seed, "sample": 40 if q else 0})
+        out.append({"kind": "concurrent-two", "ext": ext, "seed": seed})
     return out
 
 
@@ -711,9 +712,143 @@ def run_concurrent(job, res):
         shutil.rmtree(work, ignore_errors=True)
 
 
+def run_concurrent_two(job, res):
+    """Two gateways of one process, each with a persistence file of its own in the same directory, saving at the same
+    time from two real threads: every file operation is a scheduling point, all schedules with at most two preemptions."""
+    import hashlib
+    import threading
+
+    from ..drive import projection, strict
+    from ..fsshim import Shim
+    from ..persist import PGateway
+
+    ext = job["ext"]
+    work = tempfile.mkdtemp(prefix="vf-c12t-")
+    d = os.path.join(work, "dir")
+    jd = os.path.join(work, "judge")
+    os.mkdir(d)
+    os.mkdir(jd)
+    try:
+        LA1, LA2 = lines_for(2, "A"), lines_for(2, "A") + [f"3;255;0;0;17;{VERSION}", "1;0;1;0;0;99.9"]
+        LB1, LB2 = lines_for(1, "Other"), lines_for(1, "Other") + ["1;0;1;0;0;55.5", f"9;255;0;0;17;{VERSION}"]
+        dA, dB = state_bytes(LA1, ext, work), state_bytes(LB1, ext, work)
+        sA1, sA2, sB1, sB2 = (strict(projection(build(L).gw.sensors)) for L in (LA1, LA2, LB1, LB2))
+        nameA, nameB = f"net.{ext}", f"other.{ext}"
+        verdicts = {}
+
+        def load(snap, name):
+            key = (name, hashlib.sha1(repr(sorted((k, v if isinstance(v, tuple) else hashlib.sha1(v).hexdigest()) for k, v in snap.items())).encode()).hexdigest())
+            if key not in verdicts:
+                materialise(jd, snap)
+                pg = PGateway("sync", VERSION, os.path.join(jd, name))
+                try:
+                    pg.start()
+                    verdicts[key] = ("state", strict(projection(pg.gw.sensors)))
+                except Exception as exc:
+                    verdicts[key] = ("raises", f"{type(exc).__name__}: {exc}")
+                finally:
+                    pg.close()
+                res.count("concurrent_distinct_directories_loaded")
+            return verdicts[key]
+
+        def judge(snap, completed, case):
+            res.count("concurrent_crash_instants_judged")
+            for who, name, old, new in (("T1", nameA, sA1, sA2), ("T2", nameB, sB1, sB2)):
+                kind, got = load(snap, name)
+                allowed = [new] if who in completed else [old, new]
+                if kind == "raises":
+                    res.violation(f"two-gateways-saving:load-raises:{case['at']}", f"{case['desc']}: loading {name} raised {got}", case)
+                elif got not in allowed:
+                    whose = "the OTHER gateway's nodes" if got in (sA1, sA2, sB1, sB2) else "an empty table" if got == strict({}) else "a state that was never saved"
+                    res.violation(f"two-gateways-saving:wrong-state:{case['at']}:{'foreign' if 'OTHER' in whose else 'other'}",
+                                  f"{case['desc']}: a crash at that instant leaves {sorted(snap)}; {name} loads to {whose}", case)
+
+        # dry run: operations of one save
+        materialise(d, {nameA: dA, nameB: dB})
+        engA = build(LA2, os.path.join(d, nameA))
+        with Shim("count") as sh0:
+            engA.gw.tasks.persistence.save_sensors()
+        ops = list(sh0.ops)
+        nonwrite = [i for i, o in enumerate(ops) if o[0] != "write"]
+        pairs = [(j, m) for j in nonwrite + [len(ops)] for m in nonwrite + [len(ops) + 5]]
+        if job.get("only"):
+            pairs = [tuple(x) for x in job["only"]]
+        for (j, m) in pairs:
+            materialise(d, {nameA: dA, nameB: dB})
+            engA = build(LA2, os.path.join(d, nameA))
+            engB = build(LB2, os.path.join(d, nameB))
+            sched = TwoThreadSched()
+            sh = Shim("count")
+            sh.on_op, sh.on_done = sched.on_op, sched.on_done
+            sh.install()
+            errors, completed = {}, []
+
+            def body(who, eng):
+                try:
+                    eng.gw.tasks.persistence.save_sensors()
+                    completed.append(who)
+                except BaseException as exc:
+                    errors[who] = exc
+                finally:
+                    sched.finish(who)
+
+            th1 = threading.Thread(target=body, args=("T1", engA), name="T1", daemon=True)
+            th2 = threading.Thread(target=body, args=("T2", engB), name="T2", daemon=True)
+            case = {"kind": "concurrent-two", "ext": ext, "prior": "good", "mode": "concurrent", "j": j, "m": m, "opname": "two-gateways"}
+            th1.start()
+            live, phase, stuck = ["T1"], 0, None
+            try:
+                while True:
+                    parked = sched.quiesce(live)
+                    if phase == 0 and ("T1" in sched.finished or parked.get("T1", (0,))[0] >= j):
+                        th2.start()
+                        live, phase = ["T1", "T2"], 1
+                        continue
+                    if not parked:
+                        break
+                    last = sched.trace[-1] if sched.trace else None
+                    if last is None or last[2] != "write":
+                        desc = (f"two gateways saving their own {ext} files in one directory (second starts before op {j} of the first, is preempted before its op {m}); after "
+                                + (f"{last[0]}'s {last[2]} {last[3]}" if last else "nothing yet"))
+                        judge(snapshot_dir(d), list(completed), dict(case, at=(f"after-{last[2]}" if last else "start"), desc=desc))
+                    if phase == 1 and ("T2" in sched.finished or ("T2" in parked and parked["T2"][0] >= m)):
+                        phase = 2
+                    if phase == 2 and "T1" in sched.finished:
+                        phase = 3
+                    prefer = {0: "T1", 1: "T2", 2: "T1", 3: "T2"}[phase]
+                    who = prefer if prefer in parked else sorted(parked)[0]
+                    sched.grant(who, recheck=parked[who][1] != "write")
+            except TimeoutError:
+                stuck = f"threads parked {sched.parked}, finished {sorted(sched.finished)}"
+            finally:
+                for th in (th1, th2):
+                    if th.ident is not None:
+                        th.join(5)
+                sh.uninstall()
+            res.evals += 1
+            res.count("concurrent_schedules")
+            res.count("two_gateway_save_schedules")
+            if stuck or th1.is_alive() or th2.is_alive():
+                res.count("concurrent_schedules_stuck")
+                res.notes.append(f"two-gateway schedule ({ext},{j},{m}) did not finish: {stuck}")
+                continue
+            if any(t[0] == "T2" for t in sched.trace) and any(t[0] == "T1" for t in sched.trace[next(i for i, t in enumerate(sched.trace) if t[0] == "T2"):]):
+                res.count("two_gateway_save_schedules_with_overlapping_operations")
+            for who, exc in errors.items():
+                res.violation(f"two-gateways-saving:save-raises:{type(exc).__name__}", f"two gateways saving their own {ext} files (j={j}, m={m}): {who}'s save_sensors() raised {type(exc).__name__}: {exc}", dict(case, at="end"))
+            if not errors:
+                judge(snapshot_dir(d), ["T1", "T2"], dict(case, at="end", desc=f"two gateways saving their own {ext} files (j={j}, m={m}), both returned"))
+            res.nontrivial((ext, "two-gateways", j, m))
+        res.sample({"kind": "concurrent-two", "ext": ext, "ops_per_save": len(ops), "schedules": len(pairs)})
+    finally:
+        shutil.rmtree(work, ignore_errors=True)
+
+
 def run(job):
     res = Result()
-    if job["kind"] == "concurrent":
+    if job["kind"] == "concurrent-two":
+        run_concurrent_two(job, res)
+    elif job["kind"] == "concurrent":
         run_concurrent(job, res)
     elif job["kind"] == "shim":
         run_shim(job, res)
@@ -724,8 +859,8 @@ def run(job):
 
 def replay(case):
     res = Result()
-    if case["kind"] == "concurrent":
-        r = run({"kind": "concurrent", "ext": case["ext"], "prior": case["prior"], "seed": 0, "only": [(case["j"], case["m"])]})
+    if case["kind"] in ("concurrent", "concurrent-two"):
+        r = run({"kind": case["kind"], "ext": case["ext"], "prior": case["prior"], "seed": 0, "only": [(case["j"], case["m"])]})
         for v in r.violations:
             res.violation(v["sig"], v["what"], v["case"])
         return res
@@ -743,7 +878,7 @@ def finish(agg, tier):
               ("faults_fired", c.get("faults_fired", 0), 400), ("loads_judged", c.get("loads_judged", 0), 1000),
               ("next_saves_judged", c.get("next_saves_judged", 0), 1000), ("loaded_old", c.get("loaded_old", 0), 100),
               ("loaded_new", c.get("loaded_new", 0), 30), ("layout:symlink-file", c.get("layout:symlink-file", 0), 150),
-              ("concurrent_schedules", c.get("concurrent_schedules", 0), 120), ("concurrent_crash_instants_judged", c.get("concurrent_crash_instants_judged", 0), 1500)]
+              ("concurrent_schedules", c.get("concurrent_schedules", 0), 120), ("two_gateway_save_schedules", c.get("two_gateway_save_schedules", 0), 100), ("concurrent_crash_instants_judged", c.get("concurrent_crash_instants_judged", 0), 1500)]
     notes = []
     if c.get("strace_unusable") or not c.get("strace_runs"):
         notes.append("strace half not usable in this sandbox run; the in-process shim half decides")
@@ -758,7 +893,7 @@ def finish(agg, tier):
                 "repeated at system-call level on a real process under strace (SIGKILL on entry to the k-th call; error injection). "
                 "Oracle: a fresh gateway's start_persistence() yields exactly the old or the new complete state, and one more save + "
                 "load yields the then-current state. Layouts: the configured path is the file itself, or (small states, priors none / good / "
-                "good+bak) a symbolic link into another directory. Two saves at once: two real threads save through the same Persistence object (the second after a state change), every file operation being a scheduling point of a controller that runs all schedules with at most two preemptions (the second save starts before operation j of the first and is preempted before its own operation m); the directory between any two operations is loaded by a fresh gateway and must give the old state or one of the two saved ones - and nothing older than a save that has already returned; neither save may raise and the final file holds the latest state (how many schedules really overlapped is reported: with a lock around the save none do). distinct = (format, prior, size, op index, crash/fail, loss variant, layout).",
+                "good+bak) a symbolic link into another directory. Two saves at once: two real threads save through the same Persistence object (the second after a state change), every file operation being a scheduling point of a controller that runs all schedules with at most two preemptions (the second save starts before operation j of the first and is preempted before its own operation m); the directory between any two operations is loaded by a fresh gateway and must give the old state or one of the two saved ones - and nothing older than a save that has already returned; neither save may raise and the final file holds the latest state (how many schedules really overlapped is reported: with a lock around the save none do). Likewise two gateways of the process, each saving its own file in the same directory (there the operations do overlap): each file must load to a state of its own gateway at every instant. distinct = (format, prior, size, op index, crash/fail, loss variant, layout).",
         "floors": floors,
         "notes": notes,
         "assumptions": ["directory operations are durable in issue order (journalled metadata); file data is durable only after fsync",
